@@ -12,6 +12,7 @@ use gimli::{EndianSlice, Error, Reader, Result, RunTimeEndian};
 
 pub mod accel;
 pub mod cfi;
+pub mod convert;
 pub mod info;
 pub mod line;
 pub mod lists;
@@ -165,6 +166,7 @@ pub fn drive_family<'a, R: Reader<Offset = usize> + 'a>(
         "cfi" => cfi::cfi(mk, case, ctx),
         "op" => op::ops(mk, case, ctx),
         "names" => accel::names(mk, case, ctx),
+        "convert" => convert::convert(mk, case, ctx),
         "index" => accel::index(mk, case, ctx),
         other => panic!("unknown family {}", other),
     }
